@@ -197,17 +197,17 @@ def n_trace_events(cmd, trace_row, following=()):
     return 1
 
 
-def run_script(ctx, rows, name, history=False):
+def run_script(ctx, rows, name, history=False, config="std"):
     script = ctx.work.fresh("script_" + name + "_", "ndjson")
     write_ndjson(script, rows)
-    return run_script_file(ctx, script, name, history)
+    return run_script_file(ctx, script, name, history, config)
 
 
-def run_script_file(ctx, script, name, history=False):
+def run_script_file(ctx, script, name, history=False, config="std"):
     if os.path.getsize(script) == 0:
         return None
     trace = script + ".trace"
-    n = exec_script(script, trace)
+    n = exec_script(script, trace, config=config)
     res = validate_trace(ctx.work, trace, history=history)
     ctx.traces += 1
     ctx.events += res.events
@@ -314,6 +314,15 @@ def corrupt_field(field, value, pred):
         rows[i][field] = value
         return i
     return f
+
+
+def nostd_run(ctx, kind, n):
+    """The 14-bit CC and (N)RPN scanners also exist without the `std` feature: the same random histories,
+    round trips and long runs against the build of the crate with default-features = false."""
+    rows = gen.random_plain(ctx.rng, kind, n)
+    rows += (gen.roundtrip_cc14 if kind == "cc14" else gen.roundtrip_pn)(ctx.rng, max(n // 20, 100), first_id=2)
+    rows += gen.long_runs(ctx.rng, kind, 0, lengths=[1, 2, 255, 256, 257, 65535, 65536], base_id=810)
+    run_script(ctx, rows, "without-std-" + kind, config="nostd")
 
 
 def real_clock_run(ctx):
